@@ -108,7 +108,7 @@ def _parse_dim(text):
 
 
 def _models(facts):
-    """assignments of 1..4 to the size symbols that satisfy every fact, as (symbols, list of dicts); None when the facts cannot be
+    """assignments of 1..8 (1..6 / 1..4 for four / more symbols) to the size symbols that satisfy every fact, as (symbols, list of dicts); None when the facts cannot be
     evaluated (too many symbols, unparsable size)"""
     import itertools
     from .dim import D
@@ -120,7 +120,8 @@ def _models(facts):
     if len(syms) > 6:
         return None
     out = []
-    for vals in itertools.product((1, 2, 3, 4), repeat=len(syms)):
+    rng = range(1, 9) if len(syms) <= 3 else range(1, 7) if len(syms) == 4 else range(1, 5)
+    for vals in itertools.product(rng, repeat=len(syms)):
         m = {sy: D(v) for sy, v in zip(syms, vals)}
         ok = True
         for kind, a, b, v in cons:
